@@ -413,6 +413,11 @@ pub fn run_c08(tier: &str, seed: u64, out: &mut Out) {
     let documented = ["nil", "t", "nilx", "tt", ":a", "a:", "$x:", "_a:", "nil:", "#:a", "?a", "#%a", "1+", "1-", "1/2", "1.5.6", "0x10", "12ab", "1e3x", "1_000", "1e3", "42", "-23", "4.5", "'x", "`x", ",x", ",@x", "[x y]", "[]", "+", "-", "...", "foo", "<="];
     let mut corpus: Vec<String> = documented.iter().map(|s| s.to_string()).collect();
     for t in NEAR_MISS.iter().chain(NUM_TOKENS.iter()).chain(STR_TOKENS.iter()) { corpus.push(t.to_string()); }
+    // every printable ASCII character (and a non-ASCII one) directly after a numeric prefix and inside a symbol
+    for c in (33u8..=126).map(|b| b as char).chain(std::iter::once('\u{3bb}')) {
+        if c == ';' { continue; }
+        for t in [format!("12{}", c), format!("12{}x", c), format!("1.5{}x", c), format!("1e3{}", c), format!("ab{}cd", c)] { corpus.push(t); }
+    }
     for ro in &ros {
         for tok in &corpus {
             // syntactic positions
